@@ -15,7 +15,7 @@
   `MdModel.Encode.report` (the model as a reader must report it). The compiled driver runs these
   very definitions; engine `roundtrip` ties them to the real crate in both directions on every run.
 -/
-import MdProofs.Lemmas.Encode
+import MdProofs.Lemmas.EncodeWhole
 namespace MdModel.Encode
 open MdModel MdModel.Dump MdModel.Gen.Layouts MdModel.Gen.LayoutsC02
 
@@ -121,5 +121,144 @@ theorem records_roundtrip (l : Layout) (b : Bytes) (pre post : List UInt8) (e : 
 /-- non-vacuity: a thread record with maximal field values fits the generated layout -/
 example : Fits MINIDUMP_THREAD [4294967295, 0, 1, 2, 18446744073709551615, 18446744073709551615, 7, 8, 9, 10] := by
   simp only [MINIDUMP_THREAD, Fits]; decide
+
+/-! ## 2. "the last of several directory entries of one type is the one served" -/
+
+/-- **C02.2 `last_duplicate_served`** — for ANY list of streams `ss` (any types, any number of
+    duplicates), written in either byte order and followed by anything: `Minidump::read` succeeds,
+    detects the byte order, and `get_raw_stream(ty)` returns the bytes of the LAST stream of type
+    `ty` in directory order (and `StreamNotFound` iff there is none). -/
+theorem last_duplicate_served (b : Bytes) (e : Endian) (flags : Nat) (ss : List (Nat × List UInt8)) (tail : List UInt8)
+    (hb : b.toList = encodeStreams e flags ss ++ tail) (hsz : b.size < 2 ^ 32) (hfl : flags < 2 ^ 64)
+    (hty : ∀ x ∈ ss, x.1 < 2 ^ 32) (ty : Nat) :
+    ∃ d, readDump b = .ok d ∧ d.endian = e ∧
+      getRawStream d b ty = match lastOf ty ss with
+        | none => .error .StreamNotFound
+        | some bs => .ok bs.toArray := by
+  have hlen := congrArg List.length hb
+  simp only [Array.length_toList, List.length_append, encodeStreams_length, ← streamsBytes_length] at hlen
+  have hd := readDump_enc e flags ss tail hb (by omega) hfl (dirFits_of_bound ss _ hty (by omega))
+  exact ⟨_, hd, rfl, getRawStream_enc e flags ss tail hb hsz ty _ rfl⟩
+
+/-- non-vacuity / a concrete instance: two thread-list entries, the second one is served -/
+example : lastOf 3 [(3, [1, 2]), (4, [9]), (3, [7])] = some ([7] : List UInt8) := by decide
+
+/-! ## 3. "reading it back yields exactly the model: the same items in file order" -/
+
+/-- everything `decode` needs from the nine `get_stream` calls -/
+theorem decode_of {b : Bytes} {d : Dump} (hd : readDump b = .ok d)
+    {t : Except Err (List Thread)} {mo : Except Err (List Module)} {m5 m9 : Except Err (List Region)}
+    {mi : Except Err (List MemInfo)} {tn : Except Err (List (Nat × List Nat))} {un : Except Err (List UnloadedModule)}
+    {x : Except Err Exception} {sy : Except Err RSysInfo}
+    (h1 : streamRes d b ST_THREAD_LIST (fun s => readThreadList MemSizes.default s b d.endian) = .ok t)
+    (h2 : streamRes d b ST_MODULE_LIST (fun s => readModuleList MemSizes.default s b d.endian) = .ok mo)
+    (h3 : streamRes d b ST_MEMORY_LIST (fun s => readMemoryList MemSizes.default s b d.endian) = .ok m5)
+    (h4 : streamRes d b ST_MEMORY64_LIST (fun s => readMemory64List MemSizes.default s b d.endian) = .ok m9)
+    (h5 : streamRes d b ST_MEMORY_INFO_LIST (fun s => readMemoryInfoList MemSizes.default s d.endian) = .ok mi)
+    (h6 : streamRes d b ST_THREAD_NAMES (fun s => readThreadNames MemSizes.default s b d.endian) = .ok tn)
+    (h7 : streamRes d b ST_UNLOADED_MODULE_LIST (fun s => readUnloadedModuleList MemSizes.default s b d.endian) = .ok un)
+    (h8 : streamRes d b ST_EXCEPTION (fun s => readException s b d.endian) = .ok x)
+    (h9 : streamRes d b ST_SYSTEM_INFO (fun s => readSystemInfo s b d.endian) = .ok sy) :
+    ∃ r, decode b = .ok r ∧ r.endian = d.endian ∧ r.flags = d.header.flags ∧
+      r.threads = t.map (fun l => l.map (rthreadOf b)) ∧
+      r.modules = mo.map (fun l => l.map (mmoduleOf d.endian)) ∧
+      r.memory = pickMemory (m9.map (fun l => l.map (regionOf b))) (m5.map (fun l => l.map (regionOf b))) ∧
+      r.memInfo = mi.map (fun l => l.map mmemInfoOf) ∧
+      r.threadNames = tn ∧
+      r.unloaded = un.map (fun l => l.map munloadedOf) ∧
+      r.exception = x.map (rexceptionOf b) ∧
+      r.sysInfo = sy := by
+  simp only [decode, hd, h1, h2, h3, h4, h5, h6, h7, h8, h9, Res.bind]
+  exact ⟨_, rfl, rfl, rfl, rfl, rfl, rfl, rfl, rfl, rfl, rfl, rfl⟩
+
+theorem readSystemInfo_safe (s all : Bytes) (e : Endian) (hsz : SliceLen all.size) :
+    Safe (Bnd all) (readSystemInfo s all e) := by
+  unfold readSystemInfo
+  split
+  · exact safe_fail _
+  · exact safe_bind (readStringUtf16_safe _ _ _ hsz (by unfold Bnd K; omega)) (fun r _ => safe_pure _)
+
+/-- **C02.3 `decode_encode_partial`** — for every well-formed model, both byte orders, both memory
+    list forms: reading the encoded file succeeds, the byte order and the header flags are
+    recovered, and the THREAD LIST (ids, suspend counts, priorities, TEBs, stack bytes, context
+    bytes, in file order), the MEMORY served by `get_memory()` (bases and byte-identical contents in
+    file order; the 32-bit form drops the regions it cannot describe, i.e. the empty ones) and the
+    MEMORY-INFO LIST are exactly the model's — whatever raw streams were listed earlier in the
+    directory under the same types (last duplicate wins).
+
+    FULL STATEMENT (the goal; see notes/C02.md for the gap):
+      theorem decode_encode : WellFormed' m f → decode (encode m e f) = .ok (report m e f)
+    What is missing for it are the same three-step arguments (records fit / records decode / stream
+    reads back) for the module list (names + the four CodeView shapes), thread names, unloaded
+    modules, exception and system info; their ingredients — strings (`readStringUtf16_enc`), both
+    list headers, records, placement of every out-of-band group (`oob_placed`), the served stream
+    (`getRawStream_encode`) — are proved, and the engine compares `decode`, `encode` and `report`
+    with the real reader on those streams on every run. Here they are only shown to be read without a
+    panic outcome (C01's lemmas). -/
+theorem decode_encode_partial {m : DumpModel} {f : MemForm} (wf : WellFormed m f) (e : Endian) :
+    ∃ r, decode (encode m e f) = .ok r ∧ r.endian = e ∧ r.flags = m.flags ∧
+      r.threads = (report m e f).threads ∧ r.memory = (report m e f).memory ∧ r.memInfo = (report m e f).memInfo := by
+  have hd := readDump_encode wf e
+  have hpl := oob_placed m e f
+  have hall : (encode m e f).size < 2 ^ 32 := by rw [hpl.size]; exact wf.size
+  have hslice : SliceLen (encode m e f).size := by unfold SliceLen; omega
+  have hoff : 0 < oobStart m f := by unfold oobStart; omega
+  have hstart : (oobOffsets m f).threads = oobStart m f := rfl
+  have hmemoff : 0 < (oobOffsets m f).memory := by simp only [oobOffsets]; omega
+  let d : Dump := ⟨e, encHeaderVal (allStreams m e f).length m.flags, dirMap (allStreams m e f), (allStreams m e f).length⟩
+  have hdb := default_bounded
+  -- threads
+  obtain ⟨tr, ht1, ht2⟩ := readThreadList_enc MemSizes.default (s := (encThreadList e m.pad (oobOffsets m f).threads m.threads).toArray)
+    (all := encode m e f) (e := e) (pad := m.pad) (off := (oobOffsets m f).threads) (ts := m.threads) (by simp) wf.threads
+    (by rw [hstart]; exact hoff) hpl.threads hall (by simpa using (core_stream_small wf e (core_threads m e f)).1)
+  have h1 := streamRes_ok (d := d) (reader := fun s => readThreadList MemSizes.default s (encode m e f) e)
+    (getRawStream_encode wf e ST_THREAD_LIST _ (core_threads m e f) d rfl) ht1
+  -- memory info
+  obtain ⟨ir, hi1, hi2⟩ := readMemoryInfoList_enc MemSizes.default (s := (encMemInfoList e m.memInfo).toArray) (e := e)
+    (is := m.memInfo) (by simp) wf.memInfo (by simpa using (core_stream_small wf e (core_memInfo m e f)).1)
+  have h5 := streamRes_ok (d := d) (reader := fun s => readMemoryInfoList MemSizes.default s e)
+    (getRawStream_encode wf e ST_MEMORY_INFO_LIST _ (core_memInfo m e f) d rfl) hi1
+  -- the streams whose round trip is not shown here: total by C01
+  obtain ⟨mo, h2⟩ := streamRes_total (B := Bnd (encode m e f)) d (encode m e f) ST_MODULE_LIST
+    (fun s => readModuleList MemSizes.default s (encode m e f) e) (fun s hs => readModuleList_safe _ hdb _ _ _ hslice hs)
+  obtain ⟨tn, h6⟩ := streamRes_total (B := Bnd (encode m e f)) d (encode m e f) ST_THREAD_NAMES
+    (fun s => readThreadNames MemSizes.default s (encode m e f) e) (fun s hs => readThreadNames_safe _ hdb _ _ _ hslice hs)
+  obtain ⟨un, h7⟩ := streamRes_total (B := Bnd (encode m e f)) d (encode m e f) ST_UNLOADED_MODULE_LIST
+    (fun s => readUnloadedModuleList MemSizes.default s (encode m e f) e)
+    (fun s hs => readUnloadedModuleList_safe _ hdb _ _ _ hslice hs)
+  obtain ⟨x, h8⟩ := streamRes_total (B := Bnd (encode m e f)) d (encode m e f) ST_EXCEPTION
+    (fun s => readException s (encode m e f) e) (fun s _ => readException_safe _ _ _)
+  obtain ⟨sy, h9⟩ := streamRes_total (B := Bnd (encode m e f)) d (encode m e f) ST_SYSTEM_INFO
+    (fun s => readSystemInfo s (encode m e f) e) (fun s _ => readSystemInfo_safe _ _ _ hslice)
+  -- memory, by form
+  cases f with
+  | mem =>
+    obtain ⟨rr, hr1, hr2⟩ := readMemoryList_enc MemSizes.default
+      (s := (encMemoryList e m.pad (oobOffsets m .mem).memory m.memory).toArray) (all := encode m e .mem) (e := e)
+      (pad := m.pad) (off := (oobOffsets m .mem).memory) (rs := m.memory) (by simp) wf.regions hmemoff hpl.memory hall
+      (by simpa using (core_stream_small wf e (core_memory m e)).1)
+    have h3 := streamRes_ok (d := d) (reader := fun s => readMemoryList MemSizes.default s (encode m e .mem) e)
+      (getRawStream_encode wf e ST_MEMORY_LIST _ (core_memory m e) d rfl) hr1
+    have h4 := streamRes_notFound (d := d) (reader := fun s => readMemory64List MemSizes.default s (encode m e .mem) e)
+      (getRawStream_encode_none wf e ST_MEMORY64_LIST (no_memory64_in_mem m) d rfl)
+    obtain ⟨r, hr, he, hfl, hth, _, hmem, hmi, _⟩ := decode_of hd h1 h2 h3 h4 h5 h6 h7 h8 h9
+    refine ⟨r, hr, he, hfl, ?_, ?_, ?_⟩
+    · rw [hth]; simp [report, Except.map, ht2]
+    · rw [hmem]; simp [report, Except.map, pickMemory, hr2]
+    · rw [hmi]; simp [report, Except.map, hi2]
+  | mem64 =>
+    obtain ⟨rr, hr1, hr2⟩ := readMemory64List_enc MemSizes.default
+      (s := (encMemory64List e (oobOffsets m .mem64).memory m.memory).toArray) (all := encode m e .mem64) (e := e)
+      (off := (oobOffsets m .mem64).memory) (rs := m.memory) (by simp) wf.regions hpl.memory hall
+      (by simpa using (core_stream_small wf e (core_memory64 m e)).1)
+    have h4 := streamRes_ok (d := d) (reader := fun s => readMemory64List MemSizes.default s (encode m e .mem64) e)
+      (getRawStream_encode wf e ST_MEMORY64_LIST _ (core_memory64 m e) d rfl) hr1
+    have h3 := streamRes_notFound (d := d) (reader := fun s => readMemoryList MemSizes.default s (encode m e .mem64) e)
+      (getRawStream_encode_none wf e ST_MEMORY_LIST (no_memory_in_mem64 m) d rfl)
+    obtain ⟨r, hr, he, hfl, hth, _, hmem, hmi, _⟩ := decode_of hd h1 h2 h3 h4 h5 h6 h7 h8 h9
+    refine ⟨r, hr, he, hfl, ?_, ?_, ?_⟩
+    · rw [hth]; simp [report, Except.map, ht2]
+    · rw [hmem]; simp [report, Except.map, pickMemory, hr2]
+    · rw [hmi]; simp [report, Except.map, hi2]
 
 end MdModel.Encode
